@@ -15,7 +15,7 @@ from typing import Dict, List, Optional, Set, Tuple
 from jinja2 import nodes as J
 
 from ..front_py import AnalysisError, FuncInfo, walk_local, norm, dotted
-from ..dataflow import Defs, stores_in
+from ..dataflow import Defs, stores_in, parent_map
 from ..front_jinja import JinjaBinding, JTemplate
 from ..types_lite import members
 
@@ -213,6 +213,7 @@ def run(eng, rep) -> None:
     rep.rule("R15.1", "every wire-order-relevant iteration over a struct's fields is in ascending field_id")
     rep.rule("R15.3", "the order of a struct's fields is computed from that struct on every use (no module-level cache keyed by name)")
     rep.rule("R15.5", "a sort applied to struct fields has a key that the fields actually carry (a getattr default that every field falls back to sorts nothing)")
+    rep.rule("R15.6", "no wire-relevant iteration takes a struct's fields in plain declaration order")
     rep.rule("R15.2", "the run-time C++ codec iterates the reflected field vector front to back, unsorted (order = Struct.reflection's)")
     rep.rule("R15.4", "generated C++ struct codec, typed AST of the instance for a model struct declared fb@1, fa@0, fc@2: Encode/Decode (and a decoding constructor, in member declaration order) touch the buffer in ascending field id; no unsequenced buffer accesses")
     rep.assume("dict-insertion order, list order and sorted() stability as specified by Python; jinja2's sort filter sorts ascending by the named attribute")
@@ -232,7 +233,7 @@ def run(eng, rep) -> None:
     seen_cache = set()
     inventory = []
     # parameters that receive a struct's field list at some call site (a shared helper that lists "nodes" of any kind)
-    field_params: Dict[str, Dict[str, List[FuncInfo]]] = {}
+    field_params: Dict[str, Dict[str, List[Tuple[FuncInfo, ast.AST]]]] = {}
     for f0 in prog.functions.values():
         ft0 = None
         for cs in cg.sites_in(f0):
@@ -246,7 +247,7 @@ def run(eng, rep) -> None:
                     break
                 ft0 = ft0 or T.fn(f0)
                 if is_field_list(ft0.of(a_)):
-                    field_params.setdefault(g0.qual, {}).setdefault(gps[i_ + off], []).append(f0)
+                    field_params.setdefault(g0.qual, {}).setdefault(gps[i_ + off], []).append((f0, a_))
     for f in prog.functions.values():
         ft = T.fn(f)
         defs = None
@@ -261,6 +262,25 @@ def run(eng, rep) -> None:
             elif isinstance(n, ast.DictComp):
                 for g in n.generators:
                     iters.append((g.iter, [ast.Expr(value=n.key), ast.Expr(value=n.value)], "comprehension"))
+            elif isinstance(n, ast.Call) and dotted(n.func) == "iter" and len(n.args) == 1 and not any(isinstance(y, (ast.Yield, ast.YieldFrom)) for y in walk_local(f.node)):
+                # an explicit iterator walked with next() in this function (a work-list / frame-stack walk): its elements can reach
+                # whatever the function calls
+                iters.append((n.args[0], list(f.node.body), "iterator"))
+            elif isinstance(n, ast.Call) and dotted(n.func) == "iter" and len(n.args) == 1:
+                # an explicit iterator inside a generator (a work-list / frame-stack walk): what the generator yields goes to the
+                # loops that consume it, so their bodies are what the elements reach
+                cons_body = []
+                for cs in cg.callers_of(f.qual):
+                    pmc = parent_map(cs.caller.node)
+                    par = pmc.get(id(cs.node))
+                    if isinstance(par, (ast.For, ast.AsyncFor)) and par.iter is cs.node:
+                        cons_body += par.body
+                    elif isinstance(par, ast.comprehension) and par.iter is cs.node:
+                        owner = pmc.get(id(par))
+                        if isinstance(owner, (ast.ListComp, ast.GeneratorExp, ast.SetComp)):
+                            cons_body.append(ast.Expr(value=owner.elt))
+                if cons_body:
+                    iters.append((n.args[0], cons_body, "iterator"))
             for it, body, kind in iters:
                 if defs is None:
                     defs = Defs(f.node)
@@ -308,8 +328,15 @@ def run(eng, rep) -> None:
                         break
                 if why is None and f.name == "reflection" and f.qual in refl_reach:
                     why = "builds the reflected field list iterated by the run-time C++ codec"
-                if why is None and via and any(c_.name == "reflection" and c_.qual in refl_reach for c_ in via):
-                    why = "lists the struct fields handed over by %s, which builds the reflected field list iterated by the run-time C++ codec" % via[0].qual
+                if why is None and via and any(c_.name == "reflection" and c_.qual in refl_reach for c_, _a in via):
+                    why = "lists the struct fields handed over by %s, which builds the reflected field list iterated by the run-time C++ codec" % via[0][0].qual
+                if via and order == "declared":
+                    # the list is a parameter: its order is what the callers hand over
+                    cos = {order_of(eng, c_, a_, Defs(c_.node))[0] for c_, a_ in via}
+                    if cos == {"sorted"}:
+                        order = "sorted"
+                    elif "declared" not in cos:
+                        order = "other:the order of the list is decided by the callers in a form not decided (%s)" % ", ".join(sorted(cos))[:80]
                 site = "%s %s over %s" % (kind, norm(it, 80), norm(base, 40))
                 inventory.append({"function": f.qual, "iter": norm(it, 80), "order": order, "relevant": bool(why)})
                 if why is None:
@@ -321,7 +348,9 @@ def run(eng, rep) -> None:
                 elif order.startswith("constkey:"):
                     rep.violation("R15.5", f.file, f.qual, site, "%s, not ascending field_id (%s)" % (order[9:], why))
                 elif order == "declared":
-                    rep.violation("R15.1", f.file, f.qual, site, "fields are serialised in declaration order, not ascending field_id (%s)" % why)
+                    rep.violation("R15.6", f.file, f.qual, site, "fields are serialised in declaration order, not ascending field_id (%s)" % why)
+                elif "decided by the callers" in order:
+                    rep.undecided("R15.1", f.file, f.qual, site, "%s (%s)" % (order[6:], why))
                 else:
                     rep.violation("R15.1", f.file, f.qual, site, "%s (%s)" % (order[6:], why))
     rep.floor("R15.1", "wire-relevant Python iterations over struct fields", n_rel, 2)
